@@ -177,6 +177,19 @@ def r2_rejection_effect_free(R) -> None:
                         starts.append(n.id)
         if not R.expect(q, len(starts), 1, f'{start_call[0]}.{start_call[1]}() call (start of the work)'):
             continue
+        # local helpers that both change the model and raise: a call of one is a rejection that is not effect-free
+        from fsa.effects import direct_writes, local_aliases_of
+        for sub in ast.walk(fi.node):
+            if isinstance(sub, ast.FunctionDef) and sub is not fi.node and any(isinstance(x, ast.Raise) for x in ast.walk(sub)) \
+                    and direct_writes(sub, local_aliases_of(fi.node, 'self')):
+                reach = set()
+                for s_ in starts:
+                    reach |= cfg.reachable_from(s_)
+                for n in cfg.nodes:
+                    if n.ast is not None and n.kind == 'stmt' and n.id not in reach and any(isinstance(c, ast.Call) and isinstance(c.func, ast.Name) and c.func.id == sub.name
+                                                                                              for c in ast.walk(n.ast)) and not isinstance(n.ast, ast.FunctionDef):
+                        R.violation(q, f'rejecting-helper-writes:{sub.name}', f'the up-front rejection at L{n.lineno} goes through `{sub.name}()`, which writes the model '
+                                    f'(status/iterations) before raising: a call rejected up front would change the model', where=f'{fi.module.relpath}:{n.lineno}')
         raises = [n for n in cfg.nodes if n.kind == 'stmt' and isinstance(n.ast, ast.Raise)]
         up = _upfront_raises(cfg, starts, raises)
         R.expect(q, len(up), 4, 'up-front rejections (ValueError, IndexErrors, SolutionError)')
